@@ -160,6 +160,12 @@ pub(crate) async fn forward(rx: &mut super::Receiver, tx: &mut super::Sender) ->
 
             // Forwarding sender closed.
             Event::Closed => {
+                // The receiver was dropped: nothing that is forwarded from now on will be processed.
+                // End forwarding, so that the sending side learns of the drop rather than of a graceful close.
+                if tx.remote_closed() == Some(false) {
+                    return Err(ForwardError::Send(SendError::Closed { gracefully: false }));
+                }
+
                 rx.close().await;
                 closed = true;
             }
